@@ -829,6 +829,62 @@ func (e *SpecEnv) call(n *SCall) Value {
 	case "deref":
 		v := e.eval(n.Args[0])
 		return x.load(e.st, v, token.NoPos)
+	case "stored":
+		// stored(store, key): the abstract state store holds key
+		s, k := e.eval(n.Args[0]), e.eval(n.Args[1])
+		return boolV(x.ssPresent(e.st, s.S, k.S))
+	case "storedval":
+		// storedval(store, key, T): the value of Go type T stored under key
+		s, k := e.eval(n.Args[0]), e.eval(n.Args[1])
+		id, ok := n.Args[2].(*SIdent)
+		if !ok {
+			specFail("storedval(store, key, TypeName)")
+		}
+		t := e.lookupType(id.Name)
+		if t == nil {
+			specFail("storedval: unknown type %s", id.Name)
+		}
+		return x.ssValue(e.st, s.S, k.S, t)
+	case "pure":
+		// pure("callee key", args...): the uninterpreted function that models
+		// a deterministic effect-free callee (same symbol the executor uses)
+		ks, ok := n.Args[0].(*SStr)
+		if !ok {
+			specFail("pure(\"key\", args...)")
+		}
+		var args []Value
+		for _, a := range n.Args[1:] {
+			args = append(args, e.eval(a))
+		}
+		sig := x.sigOfKey(ks.Val)
+		if sig == nil {
+			specFail("pure: cannot resolve %q", ks.Val)
+		}
+		res, ok2 := x.pureUF(e.st, ks.Val, sig, args)
+		if !ok2 {
+			specFail("pure: %q is not modelled as an uninterpreted function for these arguments", ks.Val)
+		}
+		return res[0]
+	case "model":
+		// model("callee key", args...): result of a built-in model of a pure library function
+		ks, ok := n.Args[0].(*SStr)
+		if !ok {
+			specFail("model(\"key\", args...)")
+		}
+		var args []Value
+		for _, a := range n.Args[1:] {
+			args = append(args, e.eval(a))
+		}
+		fn := x.prog.findFunc(ks.Val)
+		m, okm := models[ks.Val]
+		if fn == nil || !okm {
+			specFail("model: no built-in model for %q", ks.Val)
+		}
+		outs := m(x, e.st, nil, fn, args, token.NoPos)
+		if len(outs) != 1 || len(outs[0].results) == 0 {
+			specFail("model: %q is not a single-result function", ks.Val)
+		}
+		return outs[0].results[0]
 	}
 	// user spec function
 	if sf, ok := x.db.Specs[name]; ok {
